@@ -788,7 +788,7 @@ class C16(SimSpec):
     rule = (
         "all 16 subsets of {setup, teardown, node setup, node teardown} x local/HPC mode x DAGs with and without failures; the commands are probes that report host, node, "
         "environment and the instant; oracle: setup once on the submitting host before the first sbatch; teardown once per completion, after every job has an outcome and before the "
-        "completion flag; node setup before / node teardown after the batch's jobs, once per batch, with JADE_RUNTIME_OUTPUT and JADE_SUBMISSION_GROUP; results still recorded; "
+        "completion flag; node setup before / node teardown after the batch's jobs, once per batch, with JADE_RUNTIME_OUTPUT and JADE_SUBMISSION_GROUP; results still recorded; a slice with a lost node (completion through the forced completion with missing jobs: teardown still exactly once); "
         "non-trivial = >= 2 lifecycle commands configured and observed, run complete; distinct adds the configured subset"
     )
 
@@ -807,6 +807,11 @@ class C16(SimSpec):
             scen["hooks"]["rc"] = {rng.choice(["teardown", "nteardown"]): 1}
         if (i // 16) % 4 == 2 and (i // 64) % 2 == 0:
             scenario.to_cli_mode(scen)  # the default group: JADE_SUBMISSION_GROUP=default on the nodes
+        if (i // 16) % 4 == 0 and (i // 64) % 2 == 1:
+            # a node is lost (walltime, node failure): the submission completes through the forced completion with missing jobs -
+            # that is a completion like any other for the teardown command ("whether jobs passed or failed")
+            scen["faults"] = {"node_kill": 1, "node_kill_w": rng.choice([0.02, 0.05])}
+            scen["hooks"]["teardown"] = True
         if (i // 16) % 4 == 1:
             # scheduler outage while several batches run: the status query of one or two rounds fails through all its retries;
             # "no answer" must not be taken for "everything has finished" (teardown / completion before the last outcomes)
@@ -838,6 +843,7 @@ class C16(SimSpec):
         ok = [r for r in results if not r.get("error")]
         c["lifecycle_command_launches_checked"] = total(ok, "hooks")
         c["subsets_exercised"] = len({tuple(sorted(k for k in ("setup", "teardown", "nsetup", "nteardown") if t["args"]["scen"]["hooks"].get(k))) for t in tasks})
+        c["runs_with_a_lost_node_completed_with_missing_jobs_and_teardown_counted"] = sum(1 for t, r in zip(tasks, results) if not r.get("error") and (t["args"]["scen"].get("faults") or {}).get("node_kill") and r.get("complete") and (r.get("killed_nodes") or 0) >= 1)
         c["local_mode_runs"] = sum(1 for t in tasks if t["args"]["scen"].get("mode") == "local")
         return c
 
